@@ -5,9 +5,11 @@ import (
 	"fmt"
 	"math"
 	"math/big"
+	"runtime/debug"
 	"strconv"
 	"strings"
 	"unicode/utf8"
+	"unsafe"
 
 	"github.com/dop251/goja"
 
@@ -57,6 +59,8 @@ type env struct {
 	objs  []*goja.Object
 	syms  []*goja.Symbol
 	objID map[*goja.Object]int
+	// objAddr is the address of OBJ[0] (goja hashes objects by address; an integer key with that value collides with it)
+	objAddr uintptr
 	symID map[*goja.Symbol]int
 	st    *core.Stats
 }
@@ -84,6 +88,7 @@ func newEnv(st *core.Stats) *env {
 		e.objs = append(e.objs, ob)
 		e.objID[ob] = i
 	}
+	e.objAddr = uintptr(unsafe.Pointer(e.objs[0]))
 	syms := e.r.Get("SYM").(*goja.Object)
 	for i := 0; i < 3; i++ {
 		s := syms.Get(strconv.Itoa(i)).(*goja.Symbol)
@@ -129,7 +134,14 @@ func (e *env) judge(what string, o gj.Outcome) goja.Value {
 // key materialises pool slot k through producer variant p.
 func (e *env) key(cs *caseRec, k, p int) (goja.Value, mapref.Value) {
 	ci := cs.Pool[k%len(cs.Pool)]
-	return e.produce(ci, p), catalogue[ci].mv
+	return e.produce(ci, p), e.mv(ci)
+}
+
+func (e *env) mv(ci int) mapref.Value {
+	if f := catalogue[ci].mvAt; f != nil {
+		return f(e)
+	}
+	return catalogue[ci].mv
 }
 
 func (e *env) produce(ci, p int) goja.Value {
@@ -1035,7 +1047,8 @@ func execute(cs *caseRec, st *core.Stats) (out outcome) {
 			case inconclusive:
 				out.inconcl = a.why
 			default:
-				panic(p)
+				// a Go run-time panic out of the directly driven orderedMap / accessor calls (script-level calls go through gj.Call)
+				out.viol = &violation{monitor: "go-panic-escaped", detail: fmt.Sprintf("Go panic out of a direct API / orderedMap call: %v\n%s", p, core.Trunc(string(debug.Stack()), 2500))}
 			}
 		}
 	}()
@@ -1053,9 +1066,30 @@ func execute(cs *caseRec, st *core.Stats) (out outcome) {
 	} else {
 		x.jsM = e.call("H.mk", e.r.ToValue(x.isSet)).(*goja.Object)
 	}
+	// slots of keys with equal engine hashes (evidence that hash chains with more than one live entry occurred)
+	var colliding [][2]int
+	for _, pr := range [][2]string{{"six", "denorm-bits-6"}, {"ten", "denorm-bits-10"}, {"two-pow-32", "denorm-bits-2pow32"}, {"objA", "int-equal-to-objA-address"}} {
+		a, b := -1, -1
+		for s, ci := range cs.Pool {
+			switch catalogue[ci].name {
+			case pr[0]:
+				a = s
+			case pr[1]:
+				b = s
+			}
+		}
+		if a >= 0 && b >= 0 {
+			colliding = append(colliding, [2]int{a, b})
+		}
+	}
 	for i, o := range cs.Ops {
 		x.opIdx = i
 		x.step(o)
+		for _, pr := range colliding {
+			if x.model.Has(e.mv(cs.Pool[pr[0]])) && x.model.Has(e.mv(cs.Pool[pr[1]])) {
+				st.Inc("ops_with_two_live_keys_of_equal_hash")
+			}
+		}
 		// cheap invariants after every op: size and (every few ops) the structure
 		x.expect("size", "size after op", gj.RenderNumber(float64(x.model.Size())), x.eSize())
 		if (i+int(cs.Salt&3))%4 == 0 {
